@@ -2,6 +2,7 @@ package props
 
 import (
 	"fmt"
+	"go/token"
 	"go/types"
 	"sort"
 	"strings"
@@ -48,6 +49,40 @@ func C18canon(p *load.Program, run *report.Run) {
 				if c, ok := ins.(*ssa.Call); ok && c.Call.StaticCallee() != nil && c.Call.StaticCallee().String() == "bytes.NewReader" {
 					if prm, isP := c.Call.Args[0].(*ssa.Parameter); isP {
 						reader, data = c, prm
+					}
+				}
+			}
+		}
+		if reader == nil && strings.HasPrefix(fn.Name(), "decode") {
+			// a nested decoder that reads in place from its caller's reader: it cannot know where its part
+			// ends; the caller, which read the length of the part, has to compare it with what was consumed
+			for _, prm := range fn.Params {
+				if strings.HasSuffix(prm.Type().String(), "bytes.Reader") {
+					run.Count("reader-decoders", 1)
+					key := "sha2pc." + fn.Name() + "/in place"
+					bad := ""
+					ncalls := 0
+					for _, caller := range fns {
+						for _, b := range caller.Blocks {
+							for _, ins := range b.Instrs {
+								c, ok := ins.(*ssa.Call)
+								if !ok || c.Call.StaticCallee() != fn {
+									continue
+								}
+								if !lengthReadBefore(caller, c) {
+									continue // the part has no declared length of its own
+								}
+								ncalls++
+								if !consumptionCompared(caller, c) {
+									bad = fmt.Sprintf("%s decodes a length-prefixed part in place with %s and never compares the declared length with the bytes consumed: a damaged length prefix is accepted and the decoded value does not encode back to the input", caller.Name(), fn.Name())
+								}
+							}
+						}
+					}
+					if bad != "" {
+						run.Violate("decoder-consumes-input", key, p.Rel(fn.Pos()), bad, nil)
+					} else if ncalls > 0 {
+						run.OK("decoder-consumes-input", key, p.Rel(fn.Pos()), "every caller compares the declared length of the part with what was consumed")
 					}
 				}
 			}
@@ -209,3 +244,111 @@ func typeHasField(t types.Type, name string, depth int) bool {
 
 var _ = fmt.Sprint
 var _ = load.Module
+
+// consumptionCompared: in caller, a value obtained from a length-reading helper (an int result of a package
+// function that is handed the same reader before the call c) is compared with a difference of the reader's
+// Len() taken around c, on a branch that ends in an error.
+func consumptionCompared(caller *ssa.Function, c *ssa.Call) bool {
+	var rdr ssa.Value
+	for _, a := range c.Call.Args {
+		if strings.HasSuffix(a.Type().String(), "bytes.Reader") {
+			rdr = a
+		}
+	}
+	if rdr == nil {
+		return false
+	}
+	usesLen := func(v ssa.Value) bool {
+		found := false
+		var walk func(x ssa.Value, d int)
+		walk = func(x ssa.Value, d int) {
+			if d > 4 || found || x == nil {
+				return
+			}
+			if cl, ok := x.(*ssa.Call); ok && cl.Call.StaticCallee() != nil && cl.Call.StaticCallee().String() == "(*bytes.Reader).Len" {
+				found = true
+				return
+			}
+			if ins, ok := x.(ssa.Instruction); ok {
+				for _, op := range ins.Operands(nil) {
+					walk(*op, d+1)
+				}
+			}
+		}
+		walk(v, 0)
+		return found
+	}
+	for _, b := range caller.Blocks {
+		iff, ok := b.Instrs[len(b.Instrs)-1].(*ssa.If)
+		if !ok {
+			continue
+		}
+		bo, ok := iff.Cond.(*ssa.BinOp)
+		if !ok || !(bo.Op == token.NEQ || bo.Op == token.EQL || bo.Op == token.LSS || bo.Op == token.GTR) {
+			continue
+		}
+		fromHelper := func(v ssa.Value) bool {
+			for d := 0; d < 3; d++ {
+				switch t := v.(type) {
+				case *ssa.Extract:
+					if cl, ok := t.Tuple.(*ssa.Call); ok && cl.Call.StaticCallee() != nil && cl.Call.StaticCallee().Pkg == caller.Pkg {
+						for _, a := range cl.Call.Args {
+							if a == rdr {
+								return true
+							}
+						}
+					}
+					return false
+				case *ssa.Convert:
+					v = t.X
+					continue
+				}
+				break
+			}
+			return false
+		}
+		if (fromHelper(bo.X) && usesLen(bo.Y)) || (fromHelper(bo.Y) && usesLen(bo.X)) {
+			return true
+		}
+	}
+	return false
+}
+
+// lengthReadBefore: before the call c the caller obtained an integer from a helper of the package that was
+// handed the same reader (the declared length of the part that c decodes in place).
+func lengthReadBefore(caller *ssa.Function, c *ssa.Call) bool {
+	var rdr ssa.Value
+	for _, a := range c.Call.Args {
+		if strings.HasSuffix(a.Type().String(), "bytes.Reader") {
+			rdr = a
+		}
+	}
+	if rdr == nil {
+		return false
+	}
+	for _, b := range caller.Blocks {
+		for _, ins := range b.Instrs {
+			h, ok := ins.(*ssa.Call)
+			if !ok || h == c || h.Call.StaticCallee() == nil || h.Call.StaticCallee().Pkg != caller.Pkg {
+				continue
+			}
+			if !(h.Block() == c.Block() && instrIndex(h) < instrIndex(c) || h.Block() != c.Block() && h.Block().Dominates(c.Block())) {
+				continue
+			}
+			handed := false
+			for _, a := range h.Call.Args {
+				if a == rdr {
+					handed = true
+				}
+			}
+			res := h.Call.Signature().Results()
+			if !handed || res.Len() != 2 {
+				continue
+			}
+			if bt, ok := res.At(0).Type().Underlying().(*types.Basic); ok && bt.Info()&types.IsInteger != 0 {
+				return true
+			}
+		}
+	}
+	return false
+}
